@@ -2174,7 +2174,10 @@ impl<'a, W: Write + 'a> Serializer<'a, W> {
                         file_version: version,
                     }; //Savefile always serializes most recent version. Only savefile-abi ever writes old formats.
                     data.serialize(&mut serializer)?;
-                    compressed_writer.flush()?;
+                    // Note, the end-of-stream marker must be written (and its errors noticed) here.
+                    // Just dropping the encoder would silently ignore write errors.
+                    let writer = compressed_writer.finish()?;
+                    writer.flush()?;
                     return Ok(());
                 }
                 #[cfg(not(feature = "bzip2"))]
